@@ -13,7 +13,9 @@ static const char *const prefixes[] = {
 #define NPREF ((int) (sizeof prefixes / sizeof *prefixes))
 static const unsigned long counts[] = {
   0, 1, 3, 4, 5, 6, 9, 10, 11, 12, 31, 32, 99, 100, 999, 1000, 1001, 5000, 9999, 10000, 65536, 999999,
-  1000000, 99999999, 100000000, 999999999, 1000000000, 4294967295UL, ULONG_MAX
+  1000000, 99999999, 100000000, 999999999, 1000000000, 4294967295UL, ULONG_MAX,
+  /* just above 2^32 and other values whose low 32 bits are tiny: what a narrowing conversion turns into 0..3 */
+  4294967296UL, 4294967297UL, 4294967299UL, 4294967300UL, 1UL << 40, (1UL << 48) + 2, (1UL << 63) + 3
 };
 #define NCNT ((int) (sizeof counts / sizeof *counts))
 #define NRB_MAX 70
